@@ -43,7 +43,7 @@ func init() {
 			"String-sourced contexts (interpreter only; one hash-selected context per (location, configuration) at rate 3/14, thorough 5/14): the load is issued by code evaluated from a string, []byte or reader under a stream name drawn by the PRNG from the layout's label pool (no name, a word, a relative path through directories that exist inside or outside the root spelled relative to the root, relative to the working directory or absolutely, the path of a real file of another directory, '..'-laden and unclean spellings, a directory reached through a link, a trailing slash, a directory that does not exist, a URL, a random path of 1-4 components), entered by the host through LoadString | LoadStringContext | Load | LoadContext or by lisp through load-string | load-bytes with and without :name (plain, inside a let, a lambda, a map, a string inside a string), at top level or from a running file in a loader directory, and loading the location under test itself or a loader file which then loads it; string-sourced code has no loading file, so the model reads its locations like top-level ones, the library must be handed the empty context location for its calls, and the same load repeated under a control name must evaluate the same files in the same order. " +
 			"An unconfined RelativeFileSystemLibrary{} is exercised in the loader, hop, sequence and string-sourced contexts for the relative-resolution clause (and the independence from the stream name) only. " +
 			"Histories through one library value (one per case, after the static loads; kind rotating with the chunk): 2-4 rounds of loads through the SAME library value and the same runtime, between which the harness reassigns RootDir / FSLibrary.FS (sibling, sub-directory, parent, other directory, \"\", back to the first; absolute, trailing slash, relative to the working directory, through a link), changes the working directory under a relative root, re-points a symbolic link the root is or passes through (directly, through a second link, with a sub-directory behind it), or changes the file tree (a file replaced by a link to another file, a directory - for RootDir also the root itself or an ancestor - swapped for a link to another directory, a link inside the root re-pointed); after every change the model is re-evaluated for the CURRENT configuration (root = what the current spelling resolves to in the current tree from the current working directory) and judges every load as in the static case; locations of a round: every regular file spelled absolutely, relative to the working directory and relative to the directory of every loading file, plus a quarter of the chunk's locations; contexts: top level, the loader files still reached without a link (LoadSource and interpreter), one regular file per real directory as loading file of a LoadSource call; finding keys end in @after:<kind of the last change>. " +
-			"Near-equal-name layouts (appended after the layouts above: 3, thorough 12, of 16 chunks each): the root path has 1, 2, 3 components in turn, drawn from a pool of realistic directory names; next to the root directory and next to one PRNG-chosen ancestor stands one twin directory per applicable class of near-equal name (ASCII letter case; non-ASCII letter case of the same encoded length; letter case across encoded lengths such as k / KELVIN SIGN and s / LONG S; full and Turkic case mappings such as ss / sharp s and i / dotless i; NFC vs NFD; compatibility forms such as fullwidth letters; trailing dot or space; ignorable code points; the 8.3 alias; prefix / suffix), the member of the class drawn by the PRNG, holding a mirror of the root's file names below the same tail of components; links inside the root lead to twins (relative and absolute targets, directory and file), the working directory is the sandbox, the root, a twin, the root's parent or a sub-directory, one sub-directory and one file inside the root have a twin too, and the location list additionally spells every lisp file absolutely and relative to every start directory; The sandbox file system is probed per case to distinguish names by letter case, normalisation form and a trailing dot; if it does not, the near cases count themselves not applicable. Everything else (configurations, contexts, entry points, histories, oracle) is as for the other layouts. " +
+			"Near-equal-name layouts (appended after the layouts above: 3, thorough 12, of 16 chunks each): the root path has 1, 2, 3 components in turn, drawn from a pool of realistic directory names; next to the root directory and next to one PRNG-chosen ancestor stands one twin directory per applicable class of near-equal name (ASCII letter case; non-ASCII letter case of the same encoded length; letter case across encoded lengths such as k / KELVIN SIGN and s / LONG S; full and Turkic case mappings such as ss / sharp s and i / dotless i; NFC vs NFD; compatibility forms such as fullwidth letters; trailing dot or space; ignorable code points; the 8.3 alias; prefix / suffix), the member of the class drawn by the PRNG, holding a mirror of the root's file names below the same tail of components; links inside the root lead to twins (relative and absolute targets, directory and file), the working directory is the sandbox, the root, a twin, the root's parent or a sub-directory, one sub-directory and one file inside the root have a twin too, and the location list additionally spells every lisp file absolutely and relative to every start directory; RootDir \"/\" is exercised there as the boundary of the root depth (model root = top of the file system). The sandbox file system is probed per case to distinguish names by letter case, normalisation form and a trailing dot; if it does not, the near cases count themselves not applicable. Everything else (configurations, contexts, entry points, histories, oracle) is as for the other layouts. " +
 			"A recording wrapper around the interpreter's library observes (loading context, request, true location) of every library call: the context of each nested call must be the true location the library returned for the file doing the loading. " +
 			"Driver: the real `elps run [--root-dir]` binary over ~600 (thorough 4000) locations x 8 invocations (two of them a file loading every location as the last element of (map 'list load-file '(file-of-another-directory LOCATION)), one a file loading every location through (load-string '(load-file LOCATION)' :name NAME) under a drawn and under a control stream name), and one strace'd worker (no successful open of an outside file between the sentinels of a load). " +
 			"A coverage key is lib|rootspec|context|entry|location-shape|outcome where location-shape = (form flags, #components bucket, '..' present, links followed: kind x position x inside/outside, model errno, final inside/outside, for both readings when they differ); loads whose location is a plain miss (ENOENT, no link, no '..') are counted as trivial and give no key.",
@@ -232,6 +232,10 @@ func c20Libs(l *sandbox.Layout) []*c20Lib {
 	}
 	libs = append(libs, &c20Lib{kind: "relfs-noroot", family: "relfs-noroot", spec: "none", noRoot: true,
 		lib: &lisp.RelativeFileSystemLibrary{}, lispToo: true})
+	if l.Near {
+		libs = append(libs, &c20Lib{kind: "relfs", family: "relfs-rootdir-is-slash", spec: "fs-top", topRoot: true,
+			lib: &lisp.RelativeFileSystemLibrary{RootDir: "/"}, lispToo: true})
+	}
 	absRoot := l.Root.Path()
 	libs = append(libs, &c20Lib{kind: "mapfs", family: "mapfs", spec: "mem", isFS: true, inMem: true, fsRoot: absRoot,
 		lib: &lisp.FSLibrary{FS: l.Tree.MapFS(l.Root, true)}, lispToo: true})
